@@ -129,9 +129,12 @@ def drive(p2p, stream, magic, nmsgs, chunks, tail, f, prefix_for):
             for idx, name in enumerate(("magic", "command", "payload")):
                 if m[idx] != want[name]:
                     f.add(prefix + f"/{name}-ne-sent", f"message {i}: got {short(m[idx])} want {short(want[name])}")
-            if sock.pos != want["end"]:
-                f.add(prefix + "/bleed", f"message {i}: socket consumed up to {sock.pos}, message ends at {want['end']}")
+            if sock.pos < want["end"]:
+                f.add(prefix + "/bleed", f"message {i}: returned although the socket was only consumed up to {sock.pos}, message ends at {want['end']}")
                 return
+            # Reading past the end of the message is not in itself a fault (a receiver may read ahead and keep the surplus
+            # for its next call on that socket): what the statement asks is that the following messages still arrive as
+            # sent, which the next iterations check on the same socket.
             pos = want["end"]
         else:
             eof = want["why"][0].startswith("eof")
